@@ -244,6 +244,16 @@ def rejected_objects(fmt, rng):
             occs[2] = 2.0
             d.mo.occs = occs
             out.append(("non-aufbau occupations", d, "PrepareDumpError", "PrepareDumpError"))
+        # restricted orbitals whose alpha channel is aufbau but whose beta channel has a hole: a singly occupied orbital below a
+        # doubly occupied one, or explicit occs_aminusb of mixed sign
+        for label, occs, amb in (("non-aufbau beta occupations", [2.0, 1.0, 2.0], None),
+                                 ("non-aufbau beta occupations (mixed-sign occs_aminusb)", [2.0, 1.0, 1.0], [0.0, 1.0, -1.0])):
+            d, _ = wo.make(rng, fmt, nbasis_max=14, spin="restricted", contraction="segmented", ghosts=ghosts, lmax=1, virtuals=True)
+            if d.mo.norb >= 4:
+                pad = np.zeros(d.mo.norb - 3)
+                d.mo.occs = np.concatenate([occs, pad])
+                d.mo.occs_aminusb = None if amb is None else np.concatenate([amb, pad])
+                out.append((label, d, "PrepareDumpError", "PrepareDumpError"))
     # objects on which prepare_dump itself stumbles (an exception inside it must surface as PrepareDumpError)
     if fmt == "fchk":
         d, _ = wo.make(rng, fmt, nbasis_max=10, spin="restricted", contraction="segmented", ghosts=ghosts, lmax=1)
